@@ -197,6 +197,11 @@ class Interp:
             return ("addr", fr.this)
         if k == "MemberExpr" and n["member"] == PTR_FIELD[0]:
             return st.h[self.handle_of_base(n, fr)]
+        if k == "MemberExpr" and n["member"] in ("first", "second") and n.get("owner") == "std::pair" and not n.get("arrow"):
+            pv = self.rval(kids(n)[0], fr)
+            if isinstance(pv, tuple) and pv[0] == "valtuple" and len(pv[1]) == 2:
+                return pv[1][0 if n["member"] == "first" else 1]
+            raise self.und(fr, n, "pair not understood")
         if k == "DeclRefExpr":
             v = fr.env.get(n["ref"]["id"])
             if v is None:
@@ -437,6 +442,23 @@ class Interp:
                 self.assign(la, v, fr, n)
                 return old
             raise dtable.Undecidable("%s: std::exchange on unexpected operands" % fr.fn.nloc(n))
+        # std::tie / std::make_pair / std::make_tuple and the element-wise tuple assignment
+        if name == "tie" and std and args:
+            if not all(self.pure(a) for a in args):
+                raise self.und(fr, n, "std::tie of operands with side effects")
+            lvs = tuple(self.lval(a, fr) for a in args)
+            if any(lv[0] not in ("ptr", "var") for lv in lvs):
+                raise self.und(fr, n, "std::tie operand not understood")
+            return ("reftuple", lvs)
+        if name in ("make_pair", "make_tuple") and std and args:
+            if not all(self.pure(a) for a in args):
+                raise self.und(fr, n, "%s of operands with side effects (their evaluation order is unspecified)" % name)
+            vals = tuple(self.rval(a, fr) for a in args)
+            if any(isinstance(v, tuple) or isinstance(v, bool) or v is None or v == UNINIT for v in vals):
+                raise self.und(fr, n, "%s operand not understood" % name)
+            return ("valtuple", vals)
+        if name == "operator=" and c.get("record") in ("std::tuple", "std::pair") and len(args) == 2:
+            return self.tuple_assign(n, args, fr)
         # pointee protocol
         if n.get("member_call") and c.get("record") != CP and name in ("inc_reference", "dec_reference", "unique", "reference_count"):
             o = self.rval(args[0], fr)
@@ -488,6 +510,53 @@ class Interp:
                 fr.temps.append(r[1])
             return r
         raise self.und(fr, n, "call not understood")
+
+    PURE_KINDS = CASTS + ("MemberExpr", "DeclRefExpr", "This", "NullPtr", "GNUNullExpr", "IntegerLiteral", "CXXBoolLiteralExpr")
+    PURE_STD = ("move", "forward", "as_const", "addressof", "tie", "make_pair", "make_tuple")
+
+    def pure(self, n):
+        """the expression only names / reads locations and values: evaluating it has no effect, so the (unspecified) order in
+        which it is evaluated relative to its siblings cannot matter"""
+        for x in ir.walk(n):
+            if "callee" in x:
+                if x["callee"]["name"] in self.PURE_STD and (x["callee"].get("qname") or "").startswith("std::"):
+                    continue
+                return False
+            if x["k"] in self.PURE_KINDS:
+                continue
+            if x["k"] == "UnaryOperator" and x.get("op") in ("*", "&"):
+                continue
+            return False
+        return True
+
+    def tuple_assign(self, n, args, fr):
+        """std::tie(a, b, ...) = std::make_pair(x, y) / std::make_tuple(...) / std::tie(...): element-wise assignment"""
+        if not (self.pure(args[0]) and self.pure(args[1])):
+            raise self.und(fr, n, "tuple assignment of operands with side effects")
+        rhs = self.rval(args[1], fr)
+        lhs = self.rval(args[0], fr)
+        if not (isinstance(lhs, tuple) and lhs[0] == "reftuple"):
+            raise self.und(fr, n, "target of the tuple assignment is not a std::tie of understood locations")
+        if not (isinstance(rhs, tuple) and rhs[0] in ("valtuple", "reftuple")) or len(rhs[1]) != len(lhs[1]):
+            raise self.und(fr, n, "source of the tuple assignment not understood")
+        if rhs[0] == "reftuple":
+            # the elements are read while the assignment proceeds: exact only if no target is also a source
+            if set(lhs[1]) & set(rhs[1]):
+                raise self.und(fr, n, "tuple of references assigned from an overlapping tuple of references")
+            vals = tuple(self.load(lv, fr, n) for lv in rhs[1])
+        else:
+            vals = rhs[1]
+        if any(isinstance(v, tuple) or isinstance(v, bool) or v is None or v == UNINIT for v in vals):
+            raise self.und(fr, n, "element of the assigned tuple not understood")
+        seen = {}
+        for lv, v in zip(lhs[1], vals):
+            if lv in seen and seen[lv] != v:
+                # the same location is named twice and would receive different values: the result depends on the element order
+                raise self.und(fr, n, "std::tie names one location twice with different values")
+            seen[lv] = v
+        for lv, v in zip(lhs[1], vals):
+            self.assign(lv, v, fr, n)
+        return lhs
 
     # -------------------------------------------------------------- statements
     def flush_temps(self, fr):
